@@ -147,13 +147,15 @@ def Ty.size : Ty → Val → Bytes → Nat
   | .fslice t, .slice vs, tag => frameSize tag ((t.size t.zero []) * vs.length)
   | .lslice t, .slice vs, tag =>
       (sizeVarUint vs.length + (vs.map fun v => t.size v [] + sizeVarUint (t.size v [])).sum) + tag.length
-  | .pslice t, .slice vs, tag => (vs.map fun v => t.size v tag).sum
+  | .pslice t, .slice vs, tag =>
+      (vs.map fun v => let s := t.size v tag; if s = 0 ∧ ¬ tag.isEmpty then tag.length + 1 else s).sum
   | .struct _ fs, .struct vs, tag => frameSize tag (fieldsSize fs vs)
   | .map k v false, .map (some es), tag =>
       (sizeVarUint es.length + (es.map fun e =>
           let s := (if e.1.omit then 0 else k.size e.1 (appendTag k.wt 1))
                  + (if e.2.omit then 0 else v.size e.2 (appendTag v.wt 2))
           sizeVarUint s + s).sum) + tag.length
+  | .map _ _ false, .map none, tag => 1 + tag.length     -- maplen(nil) = 0: the count alone
   | .map k v true, .map (some es), tag =>
       (es.map fun e =>
           let s := (if e.1.omit then 0 else k.size e.1 (appendTag k.wt 1))
@@ -185,7 +187,8 @@ def Ty.app : Ty → Val → Bytes → Bytes
       frame tag (vs.flatMap fun v => t.app v []) ((t.size t.zero []) * vs.length)
   | .lslice t, .slice vs, tag =>
       tag ++ (appendVarUint vs.length ++ vs.flatMap fun v => appendVarUint (t.size v []) ++ t.app v [])
-  | .pslice t, .slice vs, tag => vs.flatMap fun v => t.app v tag
+  | .pslice t, .slice vs, tag =>
+      vs.flatMap fun v => let b := t.app v tag; if b.isEmpty ∧ ¬ tag.isEmpty then tag ++ [0] else b
   | .struct _ fs, .struct vs, tag => frame tag (fieldsApp fs vs) (fieldsSize fs vs)
   | .map k v false, .map (some es), tag =>
       tag ++ (appendVarUint es.length ++ es.flatMap fun e =>
@@ -193,6 +196,7 @@ def Ty.app : Ty → Val → Bytes → Bytes
                + (if e.2.omit then 0 else v.size e.2 (appendTag v.wt 2))
         appendVarUint s ++ ((if e.1.omit then [] else k.app e.1 (appendTag k.wt 1))
                          ++ (if e.2.omit then [] else v.app e.2 (appendTag v.wt 2))))
+  | .map _ _ false, .map none, tag => tag ++ appendVarUint 0
   | .map k v true, .map (some es), tag =>
       es.flatMap fun e =>
         let s := (if e.1.omit then 0 else k.size e.1 (appendTag k.wt 1))
@@ -472,7 +476,6 @@ def Ty.read : Ty → WT → Bytes → Val → Res (Val × Nat)
         | .ok (es, off) => .ok (.map (some es), off)
         | .err => .err | .panic => .panic | .hang => .hang
   | .map k v true, _, d, p =>
-      if d.isEmpty then .ok (p, 0) else
       let prior := match p with | .map (some es) => es | _ => []
       match readMapEntry (fun wt b => k.read wt b k.zero) (fun wt b s => v.read wt b s) k.zero v.zero d prior with
       | .ok (es, n) => .ok (.map (some es), n)
